@@ -294,5 +294,5 @@ Qed.
 
 Lemma py_int_blank e : np_is_blank e = true -> py_int e = None.
 Proof.
-  intros H. unfold py_int. destruct (lstrip_blank e H) as [->|[t ->]]; reflexivity.
+  intros H. unfold py_int, py_int_nolimit. destruct (lstrip_blank e H) as [->|[t ->]]; reflexivity.
 Qed.
